@@ -25,6 +25,35 @@ def oracle(log, kind):
     return msgs
 
 
+def inside_oracle(log):
+    """stack / iteration logs: every served request lies, with all its bytes, inside an upstream block that is held"""
+    msgs = []
+    blocks = []
+    for ln in log.split('\n'):
+        parts = ln.split('|')
+        if len(parts) > 1:
+            t = parts[1].split(); i = 0
+            while i < len(t):
+                if t[i] == 'U+' and i + 3 < len(t) and t[i + 3] != 'fail':
+                    blocks.append((int(t[i + 3]), int(t[i + 1]))); i += 4
+                elif t[i] == 'U-' and i + 3 < len(t):
+                    b = (int(t[i + 3]), int(t[i + 1]))
+                    if b in blocks:
+                        blocks.remove(b)
+                    i += 4
+                else:
+                    i += 1
+        head = parts[0]
+        if '=' not in head:
+            continue
+        lhs, rhs = [x.strip().split() for x in head.split('=', 1)]
+        if lhs and lhs[0] in ('a', 't') and len(lhs) >= 3 and rhs[:1] == ['ok']:
+            off = int(rhs[1]); size = int(lhs[1])
+            if blocks and not any(bo <= off and off + size <= bo + bs for bo, bs in blocks):
+                msgs.append('%s returned [%d,+%d), which is not inside any block the allocator holds (%s)' % (' '.join(lhs), off, size, blocks[-3:]))
+    return msgs
+
+
 def run(ctx):
     ctx.regen(); ctx.prove()
     thorough = ctx.tier == 'thorough'
@@ -48,6 +77,10 @@ def run(ctx):
         msgs = oracle(r['log'], kind)
         if kind in ('pool', 'coll'):
             msgs += [m for m in poolrun.live_overlap_oracle(r['log']) if 'not inside' in m]
+        if kind in ('stack', 'iter'):
+            msgs += inside_oracle(r['log'])
+        if r['rc'] != 0:
+            msgs.append('crashed (exit status %d) while using the memory it was given, after: %s' % (r['rc'], r['log'].strip().split('\n')[-1][:100]))
         checked += r['log'].count('= ok ')
         if msgs and len(ctx.violations) < 3:
             ctx.violation('%s:%s/%s' % (kind, tgt, c), 'C02 fails on the implementation: ' + msgs[0],
